@@ -93,6 +93,8 @@ impl<Error: Send + 'static> DecodeScheduler<Error> {
 
 	pub fn start(mut self) {
 		std::thread::spawn(move || loop {
+			#[cfg(kira_verif)]
+			crate::verif::point("decode_loop", Arc::as_ptr(&self.shared) as usize, 0);
 			match self.run() {
 				Ok(result) => match result {
 					NextStep::Continue => {}
@@ -114,6 +116,8 @@ impl<Error: Send + 'static> DecodeScheduler<Error> {
 		}
 		// if the frame ringbuffer is full, sleep for a bit
 		if self.frame_producer.is_full() {
+			#[cfg(kira_verif)]
+			crate::verif::point("decode_wait", Arc::as_ptr(&self.shared) as usize, 0);
 			return Ok(NextStep::Wait);
 		}
 		// check for commands
@@ -134,6 +138,12 @@ impl<Error: Send + 'static> DecodeScheduler<Error> {
 				index: self.transport.position,
 			})
 			.expect("could not push frame to frame producer");
+		#[cfg(kira_verif)]
+		crate::verif::point(
+			"decode_pushed",
+			Arc::as_ptr(&self.shared) as usize,
+			self.transport.position,
+		);
 		self.transport.increment_position(self.num_frames);
 		if !self.transport.playing {
 			self.shared.reached_end.store(true, Ordering::SeqCst);
